@@ -1,6 +1,8 @@
 import TinsModel.Wire.Wifi.TheoremsDot11
 import TinsModel.Wire.Wifi.TheoremsDot11Api
+import TinsModel.Wire.Wifi.TheoremsDot11Reparse
 import TinsModel.Wire.Wifi.TheoremsEapol
+import TinsModel.Wire.Wifi.TheoremsEapolReparse
 import TinsModel.Wire.Wifi.TheoremsRadioTap
 /-
   Per-layer theorems of the Wifi family for the four wire properties (C01 parse_safe, C02 writesOnly,
@@ -8,7 +10,9 @@ import TinsModel.Wire.Wifi.TheoremsRadioTap
     TheoremsDot11     the Dot11 class family (stated over an arbitrary class layout, so all classes at once):
                       parse safety incl. the tagged-parameter loop and `Dot11::from_bytes`, size-exact writer
     TheoremsDot11Api  the size invariant over API histories (constructors, setters, add/remove option)
+    TheoremsDot11Reparse  C03: TLV list round trip, parse ∘ serialize = id on parsed objects
     TheoremsEapol     RC4EAPOL / RSNEAPOL / `EAPOL::from_bytes`
+    TheoremsEapolReparse  C03 for the EAPOL key frames
     TheoremsRadioTap  RadioTap: the RadioTapParser walk is memory-safe and terminates, parse safety, FCS trailer writer
 -/
 namespace Tins.Wire.Wifi
